@@ -22,7 +22,7 @@ def check(run):
     if binp is None:
         return
     rng = run.rng
-    n = 4000 if run.tier == "quick" else 80000
+    n = 12000 if run.tier == "quick" else 80000
     lines, meta = [], []
     for _ in range(n):
         kind, spec, base, ic, desc = patlib.gen_pattern(rng)
